@@ -10,6 +10,7 @@
    ANY mixture of old and new bitfield pages yields the exact bitfield and the exact contiguous length.
    Partial: that the disk really holds such a mixture after a crash (flush schedule) and that has() is false
    beyond the length (no append ever sets a bit >= length) are established by the correspondence runs. *)
+From HC Require Import Base Codec Crypto Storage Bitfield Oplog Merkle SrcConsts ConstTie.
 From HC Require Import Base NMap Storage Bitfield Core BitfieldFacts ContigBridge.
 From HC Require ContigReplay.
 
@@ -69,6 +70,21 @@ Example C08_ex :
   update_contig 40000 b2 (mkBfUpdate true 32760 20) = 32760.
 Proof. vm_compute. repeat split; reflexivity. Qed.
 
+(* Tie to the source, regenerated on every run: the crate's named constants (parsed from /repo/src by
+   tools/srcconsts.py into SrcConsts.v) are the values the model uses; `tied None _` (constant renamed away) is True. *)
+Theorem C08_source_constants :
+  tied src_NODE_SIZE NODE_SIZE /\ tied src_MAX_OPLOG_ENTRIES_BYTE_SIZE MAX_OPLOG_ENTRIES_BYTE_SIZE /\
+  tied src_HEADER_SIZE HEADER_SIZE /\ tied (option_map (N.mul 2) src_HEADER_SIZE) ENTRIES_OFFSET /\
+  tied src_INITIAL_HEADER_BITS [fst INITIAL_HEADER_BITS; snd INITIAL_HEADER_BITS] /\
+  tied src_DYNAMIC_BITFIELD_PAGE_SIZE PAGE_BITS /\ tied src_FIXED_BITFIELD_BITS_LENGTH PAGE_BITS /\
+  tied src_FIXED_BITFIELD_BYTES_LENGTH PAGE_BYTES /\ tied (option_map (N.mul 4) src_FIXED_BITFIELD_LENGTH) PAGE_BYTES /\
+  tied src_TREE TREE_NS /\ tied src_DEFAULT_NAMESPACE DEFAULT_NAMESPACE /\
+  tied src_LEAF_TYPE (firstn 1 (leaf_preimage [])) /\ tied src_ROOT_TYPE (firstn 1 (tree_preimage [])) /\
+  (forall a b, tied src_PARENT_TYPE (firstn 1 (parent_preimage a b))) /\
+  (forall cr bit partial payload fr, frame cr bit partial payload = Ok fr ->
+     tied src_LEADER_SIZE (len fr - len payload) /\ tied src_CRC_SIZE (len (le_bytes 4 (cr_crc cr [])))).
+Proof. exact source_constants_are_the_models. Qed.
+
 Print Assumptions C08_has_after_update.
 Print Assumptions C08_has_after_set_range.
 Print Assumptions C08_changed_pages_are_dirty.
@@ -79,3 +95,4 @@ Print Assumptions C08_contiguous_length_exact.
 Print Assumptions C08_contiguous_length_unique.
 Print Assumptions C08_contiguous_initially.
 Print Assumptions C08_replay_exact.
+Print Assumptions C08_source_constants.
